@@ -186,5 +186,5 @@ def f21_witness(x):
     return check(mk_ir([("a", {"typ": "int", "doc": "The " + chr(x) + "a"})]), "numpydoc", True, False)
 
 
-ob("C01", "F21.numpydoc_notypes", {"x": PR}, T=60, tier="thorough", funcs=FUNCS, twin=False,
+ob("C01", "F21.numpydoc_notypes", {"x": PR}, T=60, tier="witness", funcs=FUNCS, twin=False,
    bound="witness obligation of known finding F21 (not expected to hold)")(f21_witness)
